@@ -15,7 +15,7 @@ PID = 'C24'
 
 META = {
     'technique': 'lockset dataflow + sibling agreement of normalised guard/target expression trees (init increments vs run-time decrements) + post-dominance on the event-CFG',
-    'text': 'Decides the structure that makes the wavefront dependency counting sound under every worker interleaving: counter and row-cursor accesses under the row mutex of the same row, init-time increments and run-time decrements using equal guards and targets, hand-out immediately followed by the cursor increment inside the lock, feedback token always posted. Does not decide that the band/row arithmetic covers each superblock exactly once for every grid (exhaustive evaluation, a different technique).',
+    'text': 'Decides the structure that makes the wavefront dependency counting sound under every worker interleaving: counter and row-cursor accesses under the row mutex of the same row, init-time increments and run-time decrements using equal guards and targets, hand-out immediately followed by the cursor increment inside the lock, feedback token always posted. Does not decide that the band/row arithmetic covers each superblock exactly once for every grid (exhaustive evaluation, a different technique). Also decided: the segment grid handed to enc_dec_segments_init is clamped by the superblock dimensions of the tile group it partitions (in the callee, or at every call site against the very expression passed as the dimension).',
     'note': 'MDC_INPUT / ENCDEC_INPUT cases are lock-free by protocol (the picture / row is owned by exactly one task at that point) and exempt with that reason; only valid segments are ever scheduled (init-side extra conjunct valid_sb_count_array[s])',
     'ref': 'DESIGN.md section 5 C24',
 }
